@@ -27,6 +27,9 @@ RS = 'ska_ref::RefSka'
 
 
 def run(facts, chk, tier, only=None):
+    from . import cli_e2e
+    # the subcommand through ska::main() itself (argument parser replaced by a constructed Args value): hand-over of CLI values, width dispatch
+    chk.guard('C05.cli', 'C05.cli:run0', lambda: cli_e2e.check_map(facts, chk, 'C05.cli', tier, 'Vcf'))
     from . import vcf_e2e
     # the whole of `ska map -f vcf`, functionally, with the noodles builders recorded symbolically
     chk.guard('C05.e2e', 'C05.e2e:run', lambda: vcf_e2e.check_vcf_e2e(facts, chk, 'C05.e2e', tier))
